@@ -526,6 +526,27 @@ pub fn locate(addr: usize) -> Option<Loc> {
     best.map(|x| x.1)
 }
 
+/// A block that *ends* exactly at `addr` (`base + size == addr`, size > 0) other than `not_id`
+/// — the second candidate for a one-past-the-end pointer under adjacent placement.
+pub fn locate_end(addr: usize, not_id: u32) -> Option<Loc> {
+    let _g = Guard::take();
+    let s = st();
+    let mut best: Option<Loc> = None;
+    for i in 0..s.hi {
+        let b = &s.blk[i];
+        if b.state == 0 || b.size == 0 || b.id == not_id {
+            continue;
+        }
+        if b.base + b.size == addr {
+            let loc = Loc { id: b.id, off: b.size, size: b.size, live: b.state == 1, align: b.align };
+            if best.is_none() || loc.live {
+                best = Some(loc);
+            }
+        }
+    }
+    best
+}
+
 /// Live tracked blocks (id, size, align, origin) — written into `out` within its capacity.
 pub fn live_blocks(out: &mut Vec<(u32, usize, usize, u8)>) {
     let _g = Guard::take();
